@@ -166,6 +166,7 @@ func (e *ex) doSlow(t []string) core.Result {
 		return res
 	}
 	e.cfgLoops++ // its global bucket is never closed (known finding, accounted in leak)
+	e.collect(tsl)
 	rec := &recConn{}
 	c := tsl.GetTrafficShapedConn(rec)
 	closeAll = func() { c.Close() }
@@ -419,6 +420,12 @@ func genConfig(r *core.Rand, valid bool, fast bool, span int) genCfg {
 
 // response emits ctx + writes for one response on conn id.
 func response(r *core.Rand, ops *[]string, id string, g *genCfg, fast bool, span int) {
+	responseI(r, ops, id, g, fast, span, nil)
+}
+
+// responseI: the same, but one of the writes is parked inside the inner connection (`wstart`) while
+// `middle` emits other ops, and is then resumed (`wend`).
+func responseI(r *core.Rand, ops *[]string, id string, g *genCfg, fast bool, span int, middle func()) {
 	u := r.Pick("a", "b", "c", "n", "a", "a")
 	if g != nil && len(g.shapes) > 0 && r.Chance(2, 3) {
 		u = g.shapes[r.Intn(len(g.shapes))].id
@@ -465,6 +472,16 @@ func response(r *core.Rand, ops *[]string, id string, g *genCfg, fast bool, span
 	}
 	*ops = append(*ops, fmt.Sprintf("ctx %s %s %d %d %s", id, u, rs, hl, f))
 	data := r.Bytes(hl + bodyLen)
+	if middle != nil && len(data) == 0 {
+		data = r.Bytes(1 + r.Intn(20))
+	}
+	parkAt := -1 // the write that covers this byte is the parked one
+	if middle != nil {
+		parkAt = r.Intn(len(data))
+		if r.Chance(1, 3) {
+			parkAt = 0
+		}
+	}
 	// random write sizes; boundaries biased to the head end and to action offsets
 	for p := 0; p < len(data); {
 		var q int
@@ -485,7 +502,25 @@ func response(r *core.Rand, ops *[]string, id string, g *genCfg, fast bool, span
 		if q <= p || q > len(data) {
 			q = p + r.Range(1, len(data)-p)
 		}
-		*ops = append(*ops, "write "+id+" "+core.Hex(data[p:q]))
+		if middle != nil && p <= parkAt && parkAt < q {
+			// park position within this call: anywhere, the very beginning, or just before / at an action
+			pp := r.Intn(q - p)
+			switch r.Intn(4) {
+			case 0:
+				pp = 0
+			case 1:
+				if len(acts) > 0 && rs >= 0 {
+					if x := hl + int(acts[r.Intn(len(acts))]-rs) - p - r.Intn(3); x >= 0 && x < q-p {
+						pp = x
+					}
+				}
+			}
+			*ops = append(*ops, fmt.Sprintf("wstart %s %s %d", id, core.Hex(data[p:q]), pp))
+			middle()
+			*ops = append(*ops, "wend "+id)
+		} else {
+			*ops = append(*ops, "write "+id+" "+core.Hex(data[p:q]))
+		}
 		p = q
 	}
 	if r.Chance(1, 10) {
@@ -495,8 +530,10 @@ func response(r *core.Rand, ops *[]string, id string, g *genCfg, fast bool, span
 
 func (P) Gen(r *core.Rand, tier string, emit func([]string)) {
 	nMain, nCfg, nPar, nSlow := 70, 40, 6, 1
+	nInter, nFlight, nE2E := 50, 30, 24
 	if tier == "thorough" {
 		nMain, nCfg, nPar, nSlow = 1500, 600, 60, 4
+		nInter, nFlight, nE2E = 1000, 500, 400
 	}
 	// A. shaped write histories
 	for i := 0; i < nMain; i++ {
@@ -575,6 +612,197 @@ func (P) Gen(r *core.Rand, tier string, emit func([]string)) {
 		bw := r.Range(40, 90)
 		emit([]string{fmt.Sprintf("slow %s %d %d %d", r.Pick("a", "b", "c"), r.Intn(50), bw, bw*3+r.Range(1, bw-1)), "leak"})
 	}
+	// F. interleaved histories: configuration requests, accepts and stalled uploads while a Write is between two rounds
+	for i := 0; i < nInter; i++ {
+		fast := r.Chance(1, 2)
+		span := r.Pick2(60, 300)
+		g := genConfig(r, true, fast, span)
+		ops := []string{g.tok, "conn k0"}
+		cur := &g
+		if r.Chance(1, 3) {
+			response(r, &ops, "k0", cur, fast, span)
+		}
+		var later []string
+		var g2 genCfg
+		have2 := false
+		middle := func() {
+			switch k := r.Intn(8); {
+			case k < 4: // an accepted configuration (the same patterns, other actions)
+				g2, have2 = genConfig(r, true, fast, span), true
+				ops = append(ops, g2.tok)
+				core.Count("gen:inter:config-accepted")
+			case k == 4: // a refused one: nothing may change
+				ops = append(ops, genConfig(r, false, fast, span).tok)
+				core.Count("gen:inter:config-rejected")
+			case k == 5: // a stalled upload around an accept
+				g2, have2 = genConfig(r, true, fast, span), true
+				ops = append(ops, "cfgstart "+strings.TrimPrefix(g2.tok, "config "), "conn k1", "cfgend")
+				later = append(later, "k1")
+				core.Count("gen:inter:stalled-upload")
+			case k == 6: // another connection is accepted meanwhile
+				ops = append(ops, "conn k1")
+				later = append(later, "k1")
+				core.Count("gen:inter:accept")
+			default:
+				core.Count("gen:inter:nothing")
+			}
+		}
+		responseI(r, &ops, "k0", cur, fast, span, middle)
+		if have2 {
+			cur = &g2
+		}
+		if r.Chance(1, 2) {
+			ops = append(ops, "conn k2")
+			later = append(later, "k2")
+		}
+		later = append(later, "k0")
+		for _, id := range later {
+			if r.Chance(2, 3) {
+				response(r, &ops, id, cur, fast, span)
+			}
+		}
+		ops = append(ops, "leak")
+		emit(ops)
+	}
+	// G. connections accepted while a configuration request is still being uploaded
+	for i := 0; i < nFlight; i++ {
+		fast := r.Chance(1, 2)
+		span := r.Pick2(60, 300)
+		var ops []string
+		var g1 genCfg
+		var cur *genCfg
+		if !r.Chance(1, 6) {
+			g1 = genConfig(r, true, fast, span)
+			ops = append(ops, g1.tok)
+			cur = &g1
+		}
+		hasK0 := r.Chance(1, 2)
+		if hasK0 {
+			ops = append(ops, "conn k0")
+		}
+		g2 := genConfig(r, !r.Chance(1, 5), fast, span)
+		ops = append(ops, "cfgstart "+strings.TrimPrefix(g2.tok, "config "))
+		ops = append(ops, "conn k1")
+		if r.Chance(1, 3) {
+			response(r, &ops, "k1", cur, fast, span) // the old configuration is still the active one
+		}
+		if r.Chance(1, 3) {
+			ops = append(ops, "conn k1b")
+		}
+		ops = append(ops, "cfgend")
+		if g2.valid {
+			cur = &g2
+		}
+		ops = append(ops, "conn k2")
+		// k1 was accepted before the configuration became active: its actions must not reach it
+		for _, id := range []string{"k1", "k2", "k1", "k0", "k1b"} {
+			if (id == "k0" && !hasK0) || (id == "k1b" && !contains(ops, "conn k1b")) {
+				continue
+			}
+			if id == "k1" || r.Chance(1, 2) {
+				response(r, &ops, id, cur, fast, span)
+			}
+		}
+		ops = append(ops, "leak")
+		emit(ops)
+	}
+	// H. end to end: a real proxy on the shaped listener, keep-alive sequences of matching and non-matching URLs
+	for i := 0; i < nE2E; i++ {
+		span := []int{300, 3000, 12000}[r.Intn(3)]
+		g := genConfig(r, true, false, span)
+		cur := &g
+		ops := []string{g.tok, "dial c0"}
+		live := []string{"c0"}
+		nreq := r.Range(2, 4)
+		for k := 0; k < nreq; k++ {
+			if k > 0 && r.Chance(1, 5) {
+				switch r.Intn(3) {
+				case 0:
+					g2 := genConfig(r, true, false, span)
+					ops = append(ops, g2.tok)
+					cur = &g2
+				case 1:
+					ops = append(ops, genConfig(r, false, false, span).tok)
+				default:
+					g2 := genConfig(r, true, false, span)
+					id := fmt.Sprintf("c%d", len(live))
+					ops = append(ops, "cfgstart "+strings.TrimPrefix(g2.tok, "config "), "dial "+id, "cfgend")
+					live = append(live, id)
+					cur = &g2
+				}
+				if r.Chance(1, 2) {
+					id := fmt.Sprintf("c%d", len(live))
+					ops = append(ops, "dial "+id)
+					live = append(live, id)
+				}
+			}
+			ops = append(ops, request(r, live[r.Intn(len(live))], cur, span))
+		}
+		if r.Chance(1, 2) {
+			ops = append(ops, "hangup "+live[r.Intn(len(live))])
+		}
+		ops = append(ops, "leak")
+		emit(ops)
+	}
 	// E. the resource clause in its strict reading (global shape buckets of replaced configurations)
 	emit([]string{"config d:none s:a:0:-:5/1/1:-", "conn k0", "config d:none s:b:0:-:-:9/1", "conn k1", "close k0", "close k1", "leak strict"})
+}
+
+func contains(xs []string, x string) bool {
+	for _, y := range xs {
+		if y == x {
+			return true
+		}
+	}
+	return false
+}
+
+// request emits one exchange of the end-to-end tier: URL class, Range form, body length.
+func request(r *core.Rand, id string, g *genCfg, span int) string {
+	u := r.Pick("a", "b", "c", "n", "n", "a")
+	if g != nil && len(g.shapes) > 0 && r.Chance(1, 2) {
+		u = g.shapes[r.Intn(len(g.shapes))].id
+	}
+	var acts []int64
+	if g != nil {
+		for _, s := range g.shapes {
+			if s.id == u {
+				acts = s.acts
+			}
+		}
+	}
+	rs := int64(0)
+	R := "-"
+	switch r.Intn(8) {
+	case 0, 1:
+		rs = int64(r.Intn(span))
+		R = strconv.FormatInt(rs, 10)
+	case 2:
+		if len(acts) > 0 {
+			rs = acts[r.Intn(len(acts))] + int64(r.Range(-1, 1))
+			if rs < 0 {
+				rs = 0
+			}
+			R = strconv.FormatInt(rs, 10)
+		}
+	case 3:
+		R = r.Pick("m", "x") + strconv.Itoa(r.Intn(span))
+	}
+	var blen int
+	switch r.Intn(6) {
+	case 0:
+		blen = r.Intn(40)
+	case 1:
+		blen = r.Range(3900, 4300) // around the proxy's 4096-byte write buffer
+	case 2:
+		blen = r.Range(4097, 12000)
+	default:
+		blen = r.Intn(span + span/4)
+	}
+	if len(acts) > 0 && r.Chance(1, 3) && R[0] != 'm' && R[0] != 'x' {
+		if a := acts[r.Intn(len(acts))] - rs + int64(r.Range(-1, 2)); a >= 0 {
+			blen = int(a)
+		}
+	}
+	return fmt.Sprintf("req %s %s %s %d", id, u, R, blen)
 }
